@@ -26,7 +26,7 @@ use tokio::sync::{mpsc, Mutex};
 pub static DEF: PropDef = PropDef {
     id: "C08",
     level: "exploration",
-    rule: "a real instance holds five rooms with rows, references and deletion records; the requester key is a member of one, a former member (disabled earlier) of another, never a member of a third, admin only of a fourth and user admin only of a fifth. Random sequences of up to 25 requests over the 13 request kinds of the protocol, with room, row, entity and date arguments drawn from all rooms (room of one with rows of another), are sent to the library's own InboundQueryService before authentication, after it, before and after RoomList, interleaved with definition changes on the instance (requester disabled / re-enabled, unrelated member added) delivered through the library's own local-event handler. Every answer is decoded by kind and every item mapped to its room; the room must be one the rights model says the key is a member of at that moment, and nothing at all may be served before authentication. non-trivial = sequence naming a non-member room after authentication; distinct = canonical (phase, request kind, target membership) sequence The requester is also a former admin and a former user admin of two rooms; requests also name rows that belong to no room (definition rows of every room, a private row): a served row or reference without room is nobody's.",
+    rule: "a real instance holds five rooms with rows, references and deletion records; the requester key is a member of one, a former member (disabled earlier) of another, never a member of a third, admin only of a fourth and user admin only of a fifth. Random sequences of up to 25 requests over the 13 request kinds of the protocol, with room, row, entity and date arguments drawn from all rooms (room of one with rows of another), are sent to the library's own InboundQueryService before authentication, after it, before and after RoomList, interleaved with definition changes on the instance (requester disabled / re-enabled, unrelated member added) delivered through the library's own local-event handler. Every answer is decoded by kind and every item mapped to its room; the room must be one the rights model says the key is a member of at that moment, and nothing at all may be served before authentication. non-trivial = sequence naming a non-member room after authentication; distinct = canonical (phase, request kind, target membership) sequence The requester is also a former admin and a former user admin of two rooms; requests also name rows that belong to no room (definition rows of every room, a private row): a served row or reference without room is nobody's. Cross-room references from the first row of every other room to the first row of the member room.",
     assumptions: &[
         "authentication itself (C19) is represented by the key the connection has bound after a successful proof; here the harness sets it as initialise_connection does",
         "identifiers that appear inside legitimately served rows (target of a reference) are not counted as data of the target's room",
